@@ -217,6 +217,19 @@ Definition wf_file (f : file) : bool :=
    enums from the last enum to the first, Extensions, Fields, Oneofs, and finally
    Messages().ByName; on a non-last component only Messages().ByName and recursion.
    All ByName lookups are first-wins. *)
+(* Messages().ByName(nm) followed by [f]: first message with that name wins.  ([f] is a
+   section variable so that [find_in_msg] may recurse through it.) *)
+Section FirstMsgNamed.
+  Context {A : Type}.
+  Variable f : msg_decl -> option A.
+  Variable nm : name.
+  Fixpoint first_msg_named (l : list msg_decl) : option A :=
+    match l with
+    | [] => None
+    | m' :: l' => if name_eqb (msg_name m') nm then f m' else first_msg_named l'
+    end.
+End FirstMsgNamed.
+
 Fixpoint find_in_msg (fid : nat) (full : name) (m : msg_decl) (suffix : name) {struct m} : option desc :=
   match m with
   | MsgDecl _ msgs enums exts fields oneofs =>
@@ -235,15 +248,9 @@ Fixpoint find_in_msg (fid : nat) (full : name) (m : msg_decl) (suffix : name) {s
       match here with
       | Some d => Some d
       | None =>
-          (fix by_name (l : list msg_decl) : option desc :=
-             match l with
-             | [] => None
-             | m' :: l' =>
-                 if name_eqb (msg_name m') nm
-                 then (if is_nil rest then Some (Desc KMsg fid child)
-                       else find_in_msg fid child m' rest)
-                 else by_name l'
-             end) msgs
+          first_msg_named
+            (fun m' => if is_nil rest then Some (Desc KMsg fid child) else find_in_msg fid child m' rest)
+            nm msgs
       end
   end.
 
@@ -405,12 +412,8 @@ Fixpoint decls_in_msg (full : name) (m : msg_decl) : list (kind * name) :=
       ++ map (fun x => (KExt, fn_append full x)) exts
       ++ map (fun x => (KField, fn_append full x)) fields
       ++ map (fun x => (KOneof, fn_append full x)) oneofs
-      ++ (fix go (l : list msg_decl) : list (kind * name) :=
-            match l with
-            | [] => []
-            | m' :: l' => ((KMsg, fn_append full (msg_name m'))
-                           :: decls_in_msg (fn_append full (msg_name m')) m') ++ go l'
-            end) msgs
+      ++ flat_map (fun m' => (KMsg, fn_append full (msg_name m'))
+                             :: decls_in_msg (fn_append full (msg_name m')) m') msgs
   end.
 
 Definition decls_msg (scope : name) (m : msg_decl) : list (kind * name) :=
